@@ -79,7 +79,9 @@ validations:
               minCount: 1
 `
 
-func c10Data(n int) string {
+func c10Data(n int) string { return c10DataG(n).FlatJSONLD() }
+
+func c10DataG(n int) *Graph {
 	g := &Graph{}
 	for i := 0; i < n; i++ {
 		node := g.Add(nid(i), EX+"T").P(EX+"p", 1+i).P(EX+"q", 10+i)
@@ -87,7 +89,7 @@ func c10Data(n int) string {
 			node.P(EX+"r", "a")
 		}
 	}
-	return g.FlatJSONLD()
+	return g
 }
 
 type c10Scenario struct {
@@ -193,13 +195,18 @@ func c10Scenarios() map[string]c10Scenario {
 			})},
 		"S8": {2, []string{"Validate(Pe,d1) [no prefixes section]", "Validate(Pf,d2) [no prefixes section]"}, mk(val(c10Pe, d1), val(c10Pf, d2))},
 		"S5": {2, []string{"CompileProfile(Pa)", "Validate(Pc,d2)"}, mk(comp(c10Pa), val(c10Pc, d2))},
+		// data whose @context is a reference (a file): the JSON-LD document loader is involved in both threads; the two
+		// documents bind DIFFERENT prefixes to the namespace, through different context files
+		"S9": {2, []string{"Validate(Pa,d1 with a referenced @context)", "Validate(Pd,d2 with another referenced @context)"}, mk(
+			func() CallRes { return Validate(c10Pa, c10DataG(3).RefContextJSONLDFresh("ex")) },
+			func() CallRes { return Validate(c10Pd, c10DataG(4).RefContextJSONLDFresh("other")) })},
 	}
 }
 
 func init() {
 	Register(Meta{
 		ID: "C10", Level: "model_checking", LongCases: true,
-		Rule:        "instrumented build (every read/write of a repository package-level variable is a hooked access; x++ / x op= e on such variables split into load, scheduling point, store; sync redirected to shim primitives); harness threads run one at a time under a cooperative scheduler and control changes hands only at hooked accesses of variables the repository writes, and at shim lock operations. Scenarios: S1 Validate(Pa)||Validate(Pb) (Pa draws two path-rule names back to back, Pb is a two-call top-level rego profile), S1r same with thread order swapped, S2 three threads incl. CompileProfile, S3 one compiled query shared by three ValidateCompiled, S4 same profile twice, S5 CompileProfile||Validate. DFS over schedules with iterative preemption bounding (bound stated per scenario); per execution: every thread's (error-ness, report bytes) must equal the result of the same call run alone, no deadlock, and the vector-clock race verdict over all hooked accesses must be empty. A separate free-running pass of the same bodies under the Go race detector covers code the scheduler does not hook (dependencies).",
+		Rule:        "instrumented build (every read/write of a repository package-level variable is a hooked access; x++ / x op= e on such variables split into load, scheduling point, store; sync redirected to shim primitives); harness threads run one at a time under a cooperative scheduler and control changes hands only at hooked accesses of variables the repository writes, and at shim lock operations. Scenarios: S1 Validate(Pa)||Validate(Pb) (Pa draws two path-rule names back to back, Pb is a two-call top-level rego profile), S1r same with thread order swapped, S2 three threads incl. CompileProfile, S3 one compiled query shared by three ValidateCompiled, S4 same profile twice, S5 CompileProfile||Validate, S6/S7 different report configurations (one shared compiled query), S8 profiles without a prefixes section, S9 documents whose @context is a reference to a file (the JSON-LD document loader runs in both threads). DFS over schedules with iterative preemption bounding (bound stated per scenario); per execution: every thread's (error-ness, report bytes) must equal the result of the same call run alone, no deadlock, and the vector-clock race verdict over all hooked accesses must be empty. A separate free-running pass of the same bodies under the Go race detector covers code the scheduler does not hook (dependencies).",
 		Assumptions: []string{"interleavings inside OPA/json-gold and memory orderings weaker than sequential consistency are not explored by the scheduler; the free-running -race pass is an auxiliary cross-check for those"},
 	}, c10Gen, c10Run)
 }
@@ -209,9 +216,9 @@ func c10Gen(tier string, emit func(c10Case)) {
 		s string
 		b int
 	}
-	plan := []sb{{"S1", 2}, {"S1r", 2}, {"S4", 2}, {"S2", 1}, {"S3", 2}, {"S5", 1}, {"S6", 2}, {"S7", 2}, {"S8", 2}}
+	plan := []sb{{"S1", 2}, {"S1r", 2}, {"S4", 2}, {"S2", 1}, {"S3", 2}, {"S5", 1}, {"S6", 2}, {"S7", 2}, {"S8", 2}, {"S9", 2}}
 	if tier == "thorough" {
-		plan = []sb{{"S1", 3}, {"S1r", 3}, {"S4", 3}, {"S2", 2}, {"S3", 3}, {"S5", 3}, {"S6", 3}, {"S7", 3}, {"S8", 3}}
+		plan = []sb{{"S1", 3}, {"S1r", 3}, {"S4", 3}, {"S2", 2}, {"S3", 3}, {"S5", 3}, {"S6", 3}, {"S7", 3}, {"S8", 3}, {"S9", 3}}
 	}
 	for _, p := range plan {
 		parts := 16
@@ -362,12 +369,18 @@ func RacePass(rounds int) {
 	for r := 0; r < rounds; r++ {
 		for _, n := range names {
 			sc := scs[n]
-			res := make([]CallRes, sc.n)
+			// every body four times, all released together: an unrelated lock taken by both calls (in the engine, say)
+			// orders a single pair of calls often enough to hide a race between them from a happens-before detector
 			var wg sync.WaitGroup
-			for _, b := range sc.mk(res) {
-				wg.Add(1)
-				go func(b func()) { defer wg.Done(); b() }(b)
+			start := make(chan struct{})
+			for k := 0; k < 4; k++ {
+				res := make([]CallRes, sc.n)
+				for _, b := range sc.mk(res) {
+					wg.Add(1)
+					go func(b func()) { defer wg.Done(); <-start; b() }(b)
+				}
 			}
+			close(start)
 			wg.Wait()
 		}
 	}
